@@ -1736,7 +1736,7 @@ Proof.
 Qed.
 Lemma rc_store_recv_snapshot fl rc srg seq cps :
   rc_store (recv_snapshot fl rc srg seq cps) =
-  fold_left put_cp cps (rc_store (if f_lagdel fl then rc else purge fl rc srg cps)).
+  fold_left put_cp cps (rc_store (if f_lagdel fl then rc else purge fl rc srg)).
 Proof. unfold recv_snapshot. rewrite <- (store_of_updates fl). destruct (N.ltb 0 seq); reflexivity. Qed.
 
 (* every live session still has an entry in the retained backlog window *)
@@ -1798,7 +1798,7 @@ Proof.
         rewrite last_write_app, Ew. exact Ep.
       + fold n1 c in Hq. fold reqs1 in Hq. fold w in Hq. apply (proj1 (last_write_none k w) Ew q Hq Hk).
     - replace (n1 - c)%nat with 0%nat by lia. reflexivity. }
-  destruct (f_window fl || (N.leb o 1 && (f_lagdel fl || negb (pending_delete 0 w)))) eqn:Hpath.
+  destruct (f_window fl || (N.leb o 1 && (f_lagdel fl || N.eqb 0 0 || N.leb n 0))) eqn:Hpath.
   - (* the window is replayed *)
     rewrite Nat.mul_0_r. cbn [iter_n y_sender y_recv y_sent y_next y_live y_panics y1].
     eexists. split.
@@ -1811,7 +1811,7 @@ Proof.
     eexists. split.
     + unfold next_of. cbn [y_next aget]. fold n1. rewrite Nat2N.id, Nat.max_0_l. cbn [aset]. reflexivity.
     + intros k. rewrite rc_store_recv_snapshot.
-      replace (rc_store (if f_lagdel fl then mkrecv [] [] g0 else purge fl (mkrecv [] [] g0) g _)) with
+      replace (rc_store (if f_lagdel fl then mkrecv [] [] g0 else purge fl (mkrecv [] [] g0) g)) with
         (@nil ((N * N) * checkpoint)) by (destruct (f_lagdel fl); reflexivity).
       unfold snapshot_cps. cbn [y_live].
       assert (Hok : live_ok (live_run evs1)) by (apply (live_ok_fold evs1 []); split; [constructor|intros ? ? []]).
